@@ -210,7 +210,7 @@ class Grid2DCentroids(Contract):
     target = "geoh5py/objects/grid2d.py::Grid2D.centroids.fget"
     props = ("C17",)
     has_native = True
-    bounded_scope = "counts 1-4 x 1-4, cell sizes {0.5,1,-2}, rotations {0,30,90}, dips {0,45,90}, origins incl. default (sampled 200/2000)"
+    bounded_scope = "counts 1-4 x 1-4, cell sizes {0.5,1,-2}, rotations {0,30,90}, dips {0,45,90}, origins incl. default (sampled 200/2000); plus counts 1-12 with inexact cell sizes {0.1,0.3,0.7,0.001} on either axis (exhaustive)"
     attr_overrides = {
         "u_count": lambda I, obj: obj.fields["_u_count"], "v_count": lambda I, obj: obj.fields["_v_count"],
         "u_cell_size": lambda I, obj: obj.fields["_u_cell_size"], "v_cell_size": lambda I, obj: obj.fields["_v_cell_size"],
@@ -254,6 +254,11 @@ class Grid2DCentroids(Contract):
             ctx.oblige(f"centre-{ax}-is-origin-plus-rotated-dipped-(i+1/2)du,(j+1/2)dv", z3.Implies(rng, result.elem(t, a) == e["o"][a] + world[a]), drop=("index-polynomial",))
 
     def native_cases(self, tier, rng):
+        # cell sizes that are not exactly representable, with every count up to 12 (accumulated float steps)
+        for n in range(1, 13):
+            for size in (0.1, 0.3, 0.7, 1e-3):
+                yield {"nU": n, "nV": 1, "du": size, "dv": 1.0, "rotation": 0.0, "dip": 0.0, "origin": None}
+                yield {"nU": 2, "nV": n, "du": 1.0, "dv": size, "rotation": 30.0, "dip": 45.0, "origin": [5.0, -3.0, 1.0]}
         for _ in range(200 if tier == "quick" else 2000):
             yield {"nU": rng.randint(1, 4), "nV": rng.randint(1, 4), "du": rng.choice([0.5, 1.0, -2.0]), "dv": rng.choice([0.5, 1.0, -2.0]),
                    "rotation": rng.choice([0.0, 30.0, 90.0]), "dip": rng.choice([0.0, 45.0, 90.0]), "origin": rng.choice([None, [5.0, -3.0, 1.0]])}
@@ -366,6 +371,14 @@ class CurvePartsCells(Contract):
                 got = {tuple(sorted(map(int, x))) for x in cells} if len(cells) else set()
                 if got != exp:
                     return f"cells {sorted(got)} expected {sorted(exp)} for parts {parts}"
+                if len(cells):
+                    # labels re-derived from those segments induce the same partition of the vertices in use
+                    again = np.asarray(Curve.create(ws, vertices=v, cells=cells.copy()).parts)
+                    used = sorted({int(i) for cell in cells for i in cell})
+                    for a in used:
+                        for b in used:
+                            if (parts[a] == parts[b]) != (again[a] == again[b]):
+                                return f"part labels {again.tolist()} derived from the segments {cells.tolist()} of labelling {parts} disagree with connectivity"
                 return None
             n = case["n"]
             v = np.c_[np.arange(n, dtype=float), np.zeros(n), np.zeros(n)]
